@@ -500,13 +500,71 @@ def check_arith_interm(repo, scratch):
 CHECKS = {"arith_interm": check_arith_interm, "dynamic_dead_end": check_dynamic_dead_end, "lookahead": check_lookahead, "atom_ord": check_atom_ord, "atom_guards": check_atom_guards, "cmp_instrs": check_cmp_instrs, "switch_routes": check_switch_routes, "arith_tables": check_arith_tables}
 
 
+def file_fn_hashes(repo, files):
+    """(file::fn#ordinal -> hash of the significant-token text) for every function item of the given source files (nested
+    functions are part of their parent). Used for the peripheral-change note: a property's anchor files contain many functions
+    that no contract and no watch entry names."""
+    import hashlib
+    out = {}
+    for path in files:
+        p = os.path.join(repo, path)
+        if not os.path.exists(p):
+            out[path + "::<file>"] = None; continue
+        if not path.endswith(".rs"):
+            # library code written in Prolog: the text without comment lines and layout
+            body = "\n".join(" ".join(l_.split()) for l_ in open(p, encoding="utf-8").read().split("\n") if l_.strip() and not l_.lstrip().startswith("%"))
+            out[path + "::<text>"] = hashlib.sha256(body.encode()).hexdigest()[:16]
+            continue
+        toks = lex(open(p, encoding="utf-8").read())
+        seen = {}
+        i, n = 0, len(toks)
+        while i < n:
+            t = toks[i]
+            if t.kind == "id" and t.text == "fn":
+                j = next_sig(toks, i + 1)
+                if j < n and toks[j].kind == "id":
+                    k, depth, body_open = j + 1, 0, None
+                    while k < n:
+                        tk = toks[k]
+                        if tk.kind == "p":
+                            if tk.text in "([":
+                                depth += 1
+                            elif tk.text in ")]":
+                                depth -= 1
+                            elif tk.text == "{" and depth == 0:
+                                body_open = k; break
+                            elif tk.text == ";" and depth == 0:
+                                break
+                        k += 1
+                    if body_open is not None:
+                        close = match_close(toks, body_open)
+                        name = toks[j].text
+                        seen[name] = seen.get(name, 0) + 1
+                        blk = toks[i:close + 1]
+                        out["%s::%s#%d" % (path, name, seen[name])] = hashlib.sha256(" ".join(x.text for x in _sig(blk)).encode()).hexdigest()[:16]
+                        i = close
+            i += 1
+    return out
+
+
 def watch_hashes(repo, items):
     """(key -> sha256 of the significant-token text) for functions that a property's mechanisms name but that are outside the
     verifier's reach. items: (file, fn name, optional impl-header regex, optional ordinal among same-named fns)."""
     import hashlib
     from rustlex import find_fns, find_blocks
     out = {}
+    expanded = []
     for it in items:
+        if it[1].startswith("re:"):
+            # every function of the file whose name matches (e.g. the arithmetic instruction handlers `*_instr`)
+            rx = re.compile(it[1][3:])
+            for k_, h_ in file_fn_hashes(repo, [it[0]]).items():
+                nm = k_.split("::")[-1]
+                if rx.fullmatch(nm.split("#")[0]):
+                    out["%s::%s" % (it[0], nm)] = h_
+        else:
+            expanded.append(it)
+    for it in expanded:
         path, name = it[0], it[1]
         impl_rx = it[2] if len(it) > 2 else None
         key = "%s::%s%s" % (path, (impl_rx + "::") if impl_rx else "", name)
